@@ -1671,8 +1671,17 @@ func (v VendorNamespace) decodeVendorNamespace(data []byte, offset int, present 
 	return v, offset, nil
 }
 
+// radioTapNamespaceMaxLen is an upper bound for the bytes a single radio tap
+// namespace occupies when all its fields are present, including alignment.
+const radioTapNamespaceMaxLen = 128
+
+var errRadioTapTooLong = errors.New("RadioTap header too long")
+
 func (m RadioTap) SerializeTo(b gopacket.SerializeBuffer, opts gopacket.SerializeOptions) error {
 	buf := make([]byte, 1024)
+	if 4+4*len(m.Present) > len(buf) {
+		return errRadioTapTooLong
+	}
 
 	buf[0] = m.Version
 	buf[1] = 0
@@ -1693,11 +1702,24 @@ func (m RadioTap) SerializeTo(b gopacket.SerializeBuffer, opts gopacket.Serializ
 	radioTapNamespaceIndex := 0
 	vendorNamespaceIndex := 0
 	for _, present := range m.Present {
+		var err error
 		if radioTapNamespace {
-			offset = m.RadioTapValues[radioTapNamespaceIndex].serializeTo(buf, offset, present)
+			if radioTapNamespaceIndex >= len(m.RadioTapValues) {
+				return fmt.Errorf("RadioTap present bitmap needs more than the %d radio tap namespaces in RadioTapValues", len(m.RadioTapValues))
+			}
+			offset, err = m.RadioTapValues[radioTapNamespaceIndex].serializeTo(buf, offset, present)
+			if err != nil {
+				return err
+			}
 			radioTapNamespaceIndex += 1
 		} else if vendorNamespace {
-			offset = m.VendorValues[vendorNamespaceIndex].serializeTo(buf, offset, present)
+			if vendorNamespaceIndex >= len(m.VendorValues) {
+				return fmt.Errorf("RadioTap present bitmap needs more than the %d vendor namespaces in VendorValues", len(m.VendorValues))
+			}
+			offset, err = m.VendorValues[vendorNamespaceIndex].serializeTo(buf, offset, present)
+			if err != nil {
+				return err
+			}
 			vendorNamespaceIndex += 1
 		} else {
 			// TODO: this library does not yet handle fields defined on bits higher than 31, just break for now
@@ -1725,7 +1747,11 @@ func (m RadioTap) SerializeTo(b gopacket.SerializeBuffer, opts gopacket.Serializ
 	return nil
 }
 
-func (m RadioTapNamespace) serializeTo(buf []byte, offset uint16, present RadioTapPresent) uint16 {
+func (m RadioTapNamespace) serializeTo(buf []byte, offset uint16, present RadioTapPresent) (uint16, error) {
+	if int(offset)+radioTapNamespaceMaxLen > len(buf) {
+		return offset, errRadioTapTooLong
+	}
+
 	if present.TSFT() {
 		offset += align(offset, 8)
 		binary.LittleEndian.PutUint64(buf[offset:offset+8], m.TSFT)
@@ -1880,11 +1906,17 @@ func (m RadioTapNamespace) serializeTo(buf []byte, offset uint16, present RadioT
 		offset += 12
 	}
 
-	return offset
+	return offset, nil
 }
 
-func (v VendorNamespace) serializeTo(buf []byte, offset uint16, present RadioTapPresent) uint16 {
+func (v VendorNamespace) serializeTo(buf []byte, offset uint16, present RadioTapPresent) (uint16, error) {
+	if len(v.OUI) != 3 {
+		return offset, fmt.Errorf("invalid RadioTap vendor namespace OUI length %d, must be 3", len(v.OUI))
+	}
 	offset += align(offset, 2)
+	if int(offset)+8+int(v.SkipLength) > len(buf) {
+		return offset, errRadioTapTooLong
+	}
 
 	copy(buf[offset:], v.OUI[0:3])
 	offset += 4
@@ -1892,10 +1924,10 @@ func (v VendorNamespace) serializeTo(buf []byte, offset uint16, present RadioTap
 	offset += 2
 	binary.LittleEndian.PutUint16(buf[offset:], v.SkipLength)
 	offset += 2
-	copy(buf[offset:], v.Contents)
+	copy(buf[offset:offset+v.SkipLength], v.Contents)
 	offset += v.SkipLength
 
-	return offset
+	return offset, nil
 }
 
 func (m *RadioTap) CanDecode() gopacket.LayerClass    { return LayerTypeRadioTap }
